@@ -239,6 +239,19 @@ func (e *specEnv) eval(x Expr) Val {
 		return e.evalBin(n)
 	case *EIndex:
 		b := e.eval(n.X)
+		if m, isMap := b.(VMap); isMap {
+			// path-concrete map (package-level table) indexed by a string literal
+			key, isLit := n.I.(*EStr)
+			if !isLit || m.Unknown {
+				e.fail("map index needs a concrete map and a string literal key")
+			}
+			for k, kk := range m.Keys {
+				if kk == key.V {
+					return m.Vals[k]
+				}
+			}
+			e.fail("map has no key %q", key.V)
+		}
 		i := e.evalInt(n.I)
 		s, ok := b.(VSlice)
 		if !ok {
